@@ -20,7 +20,7 @@ from pyvc.contracts import REGISTRY, Contract, to_native
 from pyvc.engine import Engine
 from pyvc.frontend import Repo
 from pyvc.state import Frame, State
-from pyvc.values import Exc, FuncV, Ref, SV, Unsupported
+from pyvc.values import Exc, FuncV, Ref, Sc, SV, Unsupported
 
 VERIF = Path(__file__).resolve().parent.parent
 
@@ -70,6 +70,8 @@ class Verifier:
         self.second_backend = os.environ.get("VERIF_SECOND_BACKEND", "") == "1"
         self.second_backend_limit = int(os.environ.get("VERIF_SECOND_BACKEND_LIMIT", "150"))
         self.disagreements: List[str] = []
+        self.crosscheck = os.environ.get("VERIF_CROSSCHECK", "") == "1"
+        self.cross = {"paths_replayed": 0, "agree": 0, "skipped": 0, "disagreements": []}
 
     # ------------------------------------------------------------------------------------------------ solver
     def prove(self, pc: List[z3.BoolRef], goal: z3.BoolRef) -> Tuple[str, Any, str]:
@@ -198,6 +200,8 @@ class Verifier:
                             continue
                         feasible_paths += 1
                         self.check_outcome(c, s, res, values, ob)
+                        if self.crosscheck and c.runtime_checkable and self.cross["paths_replayed"] < 900:
+                            self.cross_check_path(c, s, res, values)
                 # side obligations collected during execution (call-site preconditions, type assumptions)
                 for name, pc, cond, why in ex.side_obligations:
                     o = ob(name)
@@ -231,6 +235,125 @@ class Verifier:
             o.seconds = round(dt / max(1, len(obls)), 4)
         self.stats["paths"] += feasible_paths
         return list(obls.values())
+
+    def cross_check_path(self, c: Contract, s: State, res, values: Dict[str, Any]) -> None:
+        """translation validation of the encoder on one symbolic path: a model of the path condition is turned into
+        real arguments, the real function is run under CPython, and the outcome (returns / raises which class, scalar
+        fields of the result) must be the one the symbolic summary predicts for that path"""
+        for gk, gv in s.ghost.items():
+            if isinstance(gk, str) and gk.startswith("raised_") and isinstance(gv, SV) and z3.is_true(z3.simplify(Sc.bv(gv.t))):
+                self.cross["skipped"] += 1  # the path took a nondeterministic 'may raise' branch of a library model
+                return
+        sol = z3.Solver()
+        sol.set("timeout", 3000)
+        for a in self.ex.global_axioms:
+            sol.add(a)
+        sol.add(*s.pc)
+        if sol.check() != z3.sat:
+            self.cross["skipped"] += 1
+            return
+        terms = self._scalar_terms(s, values)
+        for round_ in range(2):  # two mutually different models per path
+            m = sol.model()
+            self._cross_one(c, s, res, values, m)
+            if not terms:
+                break
+            sol.add(z3.Or(*[t != m.eval(t, model_completion=True) for t in terms]))
+            if sol.check() != z3.sat:
+                break
+
+    def _native_to_sc(self, v):
+        from pyvc.values import NONE, mk_b, mk_e, mk_i
+        import enum
+        if v is None:
+            return NONE
+        if isinstance(v, bool):
+            return mk_b(v)
+        if isinstance(v, enum.Enum):
+            cls = type(v).__name__
+            try:
+                names = [n for n, _ in self.ex.repo.enum_members(cls)]
+                return mk_e(self.ex.enum_id(cls), names.index(v.name))
+            except Exception:  # noqa
+                return None
+        if isinstance(v, int):
+            return mk_i(v)
+        return None
+
+    def _scalar_terms(self, s: State, values: Dict[str, Any]) -> List[Any]:
+        out: List[Any] = []
+
+        def walk(v, depth=0):
+            if isinstance(v, SV):
+                if not z3.is_app(v.t) or v.t.num_args() > 0 or z3.is_const(v.t):
+                    out.append(v.t)
+            elif isinstance(v, Ref) and depth < 3:
+                o = s.heap.get(v.oid)
+                if hasattr(o, "fields"):
+                    if getattr(o, "kind", None) is not None:
+                        out.append(o.kind)
+                    for x in o.fields.values():
+                        walk(x, depth + 1)
+        for v in values.values():
+            walk(v)
+        return [t for t in out if not z3.is_string(t)][:12]
+
+    def _cross_one(self, c: Contract, s: State, res, values: Dict[str, Any], m) -> None:
+        from pyvc.replay import run_native
+        from pyvc.contracts import sc_to_native
+        try:
+            args = c.concretize(self.ex, s, m, values) if c.concretize else \
+                {k: to_native(self.ex, s, m, v) for k, v in values.items()}
+        except Exception:  # noqa
+            args = None
+        from checks.common import _faithful
+        if args is None or not _faithful(args, c):
+            self.cross["skipped"] += 1
+            return
+        kind, val = run_native(c, args)
+        self.cross["paths_replayed"] += 1
+        predicted = f"raise:{res.cls}" if isinstance(res, Exc) else "return"
+        actual = f"raise:{type(val).__name__}" if kind == "raise" else "return"
+        ok = predicted == actual
+        detail = ""
+        if ok and kind == "return":
+            # the real result must be one of the behaviours the summary allows for these arguments (a summary that
+            # went through a modular callee is an over-approximation: its free symbols may take the real values)
+            try:
+                eqs = []
+                if isinstance(res, SV) and res.ty != "str":
+                    t = self._native_to_sc(val)
+                    if t is not None:
+                        eqs.append(res.t == t)
+                elif isinstance(res, Ref) and hasattr(s.heap.get(res.oid), "fields"):
+                    for fname, fv in s.heap[res.oid].fields.items():
+                        if isinstance(fv, SV) and hasattr(val, fname):
+                            got = getattr(val, fname)
+                            import enum as _enum
+                            if isinstance(got, str) and not isinstance(got, _enum.Enum):
+                                eqs.append(Sc.is_s(fv.t))
+                                continue
+                            t = self._native_to_sc(got)
+                            if t is not None:
+                                eqs.append(fv.t == t)
+                if eqs:
+                    chk = z3.Solver()
+                    chk.set("timeout", 3000)
+                    for a_ in self.ex.global_axioms:
+                        chk.add(a_)
+                    chk.add(*s.pc)
+                    for t in self._scalar_terms(s, values):
+                        chk.add(t == m.eval(t, model_completion=True))
+                    chk.add(*eqs)
+                    if chk.check() == z3.unsat:
+                        ok, detail = False, f"the real result {val!r} is not among the behaviours of the summary"
+            except Exception as e:  # noqa
+                detail = f"comparison failed: {e}"
+        if ok:
+            self.cross["agree"] += 1
+        else:
+            self.cross["disagreements"].append(f"{c.target}: summary predicts {predicted}, CPython gives {actual} "
+                                               f"{detail} on {str(args)[:200]}")
 
     def check_outcome(self, c: Contract, s: State, res, values: Dict[str, Any], ob) -> None:
         ex = self.ex
@@ -304,10 +427,63 @@ class Verifier:
                 o.model = (s, m)
                 o.solver_output = str(m)[:2000]
                 o._values = values  # type: ignore[attr-defined]
+                o._query = (list(s.pc), goal)  # type: ignore[attr-defined]
         elif r == "unknown" and o.status == "discharged":
             o.status, o.detail = "undecided", f"solver: {reason}"
 
     # ------------------------------------------------------------------------------------------------ replay
+    def more_models(self, o: Obl, limit: int = 8):
+        """further counter-models of a violated obligation that differ in at least one scalar input"""
+        q = getattr(o, "_query", None)
+        values = getattr(o, "_values", None)
+        if q is None or values is None or o.model is None or o.model[0] is None:
+            return
+        s, m = o.model
+        pc, goal = q
+        sol = z3.Solver()
+        sol.set("timeout", 4000)
+        for a in self.ex.global_axioms:
+            sol.add(a)
+        sol.add(*pc)
+        sol.add(z3.Not(goal))
+        terms = [t for t in self._scalar_terms(s, values)
+                 if not (z3.is_app(t) and t.decl().name() == "s")]      # strings are cheap to vary and change nothing
+        terms += self._ghost_apps(list(pc) + [goal])                     # values of ghost functions that matter
+        if not terms:
+            return
+        lens = [n for n in self.ex.len_symbols if z3.is_const(n)]
+        if lens:
+            sol.push()
+            sol.add(*[n <= 2 for n in lens])
+            if sol.check() != z3.sat:
+                sol.pop()
+        for _ in range(limit):
+            sol.add(z3.Or(*[t != m.eval(t, model_completion=True) for t in terms]))
+            if sol.check() != z3.sat:
+                return
+            m = sol.model()
+            yield m
+
+    def _ghost_apps(self, formulas, limit: int = 10) -> List[Any]:
+        """ground applications of ghost functions (g_ev_*) occurring in the formulas"""
+        seen, out = set(), []
+
+        def walk(t):
+            if t.get_id() in seen or len(out) >= limit:
+                return
+            seen.add(t.get_id())
+            if z3.is_quantifier(t):
+                return  # applications under a binder are not ground
+            if z3.is_app(t):
+                nm = t.decl().name()
+                if nm in ("g_ev_invalid", "g_ev_indicator", "g_ev_fulfilled") and all(not z3.is_var(a) for a in t.children()):
+                    out.append(t)
+                for a in t.children():
+                    walk(a)
+        for f in formulas:
+            walk(f)
+        return out
+
     def concretize(self, c: Contract, o: Obl) -> Optional[Dict[str, Any]]:
         if o.model is None or o.model[0] is None:
             return None
